@@ -12,7 +12,7 @@ import common as c
 
 PID = "C20"
 MANIFEST = {
-    "text": "35 Coq theorems, 16 over ALL doubles, all library-oracle behaviours meeting stated hypotheses: the display "
+    "text": "38 Coq theorems, 16 over ALL doubles, all library-oracle behaviours meeting stated hypotheses: the display "
             "text matches the numeral grammar (sign, integer digits grouped in threes, fraction | mantissa e exponent | "
             "NaN/Infinity/-Infinity) for every valid double (shape hypotheses on {:.N}/{:.14e}/parse + coarse bounds on "
             "log10/powi; Flocq no-overflow proof); grouping/trimming/separator insertion change no value; integers in "
@@ -26,7 +26,10 @@ MANIFEST = {
             "rounded significant digits incl. carry, for valid doubles; C20_parse_model_nearest/_close: parse = IEEE "
             "nearest-even of N/10^k, equal to C16's reference rn_decimal (C20_parse_model_is_C16_reference); "
             "C20_powi_model_*), so the former Prop C20_accuracy_full is the theorem "
-            "C20_accuracy_exec (only hypothesis: log10_sane on libm's log10, shown satisfiable) and "
+            "C20_accuracy_exec (only hypothesis: log10_sane on libm's log10, shown satisfiable; the *_exec_pos variants "
+            "need it on positive arguments only - log10_sane_pos, which is what the real f64::log10 can meet and "
+            "what LOG10SANE evaluates: log10 of a negative number is NaN and the code only takes log10 of absolute "
+            "values) and "
             "C20_accuracy_exact_library has no hypothesis (exact floor-log10 model); likewise well-formedness and "
             "absence of panics for the executable model under log10_sane alone (C20_wellformed_exec, C20_total_exec; "
             "summary C20_exec_complete); what stays trusted is that Rust's std/libm behave like these models (ORACLE "
@@ -41,7 +44,8 @@ MANIFEST = {
             "theorems, the Flocq/Reals axioms of the allow-list for C20_wellformed_total, "
             "C20_accuracy_partial_standard, C20_accuracy, C20_powi_model_*, C20_fmt_prec_model_accurate, "
             "C20_e10_model_exact, C20_fmt_exp14_model_correct/_shape, C20_parse_model_*, C20_powi_model_bounds, "
-            "C20_wellformed_exec, C20_total_exec, C20_exec_complete, C20_accuracy_exec, C20_accuracy_exact_library",
+            "C20_wellformed_exec(_pos), C20_total_exec, C20_exec_complete(_pos), C20_accuracy_exec(_pos), "
+            "C20_accuracy_exact_library",
     "design_ref": "DESIGN.md section 6 C20; notes/C20.md",
 }
 
@@ -319,7 +323,8 @@ def oracle_streams(h, rng, res, n):
 
 # --------------------------------------------------------------------------- the last hypothesis, on the real libm
 def log10_sane_stream(h, seed, res, thorough):
-    """LOG10SANE: the one hypothesis left in C20_accuracy_exec / C20_wellformed_exec (log10_sane), evaluated on
+    """LOG10SANE: the one hypothesis left in C20_accuracy_exec_pos / C20_wellformed_exec_pos / C20_exec_complete_pos
+    (log10_sane_pos: positive arguments, the only ones the code passes to log10), evaluated on
     the real f64::log10:  k <= floor(log10 a) as i32 <= k + 1  where 10^k <= a < 10^(k+1) (k exact, by rational
     arithmetic).  Own Rng (the other streams' inputs do not move).  A failure is a broken tie: the theorem's
     hypothesis does not hold of the implementation's library."""
@@ -373,7 +378,7 @@ def log10_sane_stream(h, seed, res, thorough):
         elif est == k + 1:
             over += 1
     if bad:
-        res.tie_broken("hypothesis log10_sane of C20_accuracy_exec / C20_wellformed_exec fails on the real "
+        res.tie_broken("hypothesis log10_sane_pos of C20_accuracy_exec_pos / C20_exec_complete_pos fails on the real "
                        "f64::log10 for %d of %d arguments" % (len(bad), len(args)),
                        "first: arg bits=%s log10 bits=%s exact decade=%s" % bad[0])
     res.streams["LOG10SANE"] = {"args": len(args), "families": fam, "failures": len(bad),
